@@ -133,6 +133,33 @@ def run(prop, seed, tier):
                     lib.import_generated(out, 'c%d' % n)
                 except Exception as ex:
                     fail('isar-constant-passthrough:' + label, text, 'accepted (isar constant with a %s), but the generated module does not import: %r' % (label, ex))
+        # the run-time library must refuse what prophyc refuses: rule breakers built directly with the array factory
+        import prophy
+
+        class _Unl(prophy.with_metaclass(prophy.struct_generator, prophy.struct)):
+            _descriptor = [('x', prophy.u32), ('y', prophy.array(prophy.u8))]
+
+        class _Dyn(prophy.with_metaclass(prophy.struct_generator, prophy.struct)):
+            _descriptor = [('n', prophy.u32), ('y', prophy.array(prophy.u8, bound='n'))]
+
+        for label, make in (('counted array of an unlimited struct', lambda: prophy.array(_Unl, bound='n')),
+                            ('fixed array of an unlimited struct', lambda: prophy.array(_Unl, size=2)),
+                            ('limited array of an unlimited struct', lambda: prophy.array(_Unl, size=2, bound='n')),
+                            ('greedy array of an unlimited struct', lambda: prophy.array(_Unl)),
+                            ('fixed array of a dynamic struct', lambda: prophy.array(_Dyn, size=2)),
+                            ('limited array of a dynamic struct', lambda: prophy.array(_Dyn, size=2, bound='n')),
+                            ('array of arrays', lambda: prophy.array(prophy.array(prophy.u8, size=2), size=2)),
+                            ('array of bytes', lambda: prophy.array(prophy.bytes(size=2), size=2)),
+                            ('array of optionals', lambda: prophy.array(prophy.optional(prophy.u32), size=2)),
+                            ('shift without bound', lambda: prophy.array(prophy.u8, size=2, shift=1))):
+            cases += 1
+            try:
+                make()
+                fail('runtime-accepted:' + label, label, 'the run-time array factory accepts a rule breaker (%s)' % label)
+            except prophy.ProphyError:
+                pass
+            except Exception as ex:
+                fail('runtime-exception:' + label, label, 'the run-time array factory answers a rule breaker with %r, not ProphyError' % ex)
         valid = [(BASE + v, 'v%d' % i) for i, v in enumerate(VALID)]
         structs = F.sample_structs(rng, 40 if tier == 'quick' else 400, 4)
         valid.append((F.Pool.TEXT + ''.join(t for t, _ in structs), 'fam'))
